@@ -7,7 +7,7 @@ Open Scope Z_scope.
 Lemma entries_names fin rs : forall off, map r_name (entries fin off rs) = map s_name rs.
 Proof.
   induction rs as [|r t IH]; intros off; [reflexivity|].
-  rewrite entries_cons. cbn [map]. rewrite IH. reflexivity.
+  rewrite entries_cons. cbn [map]. rewrite IH, entry_name. reflexivity.
 Qed.
 
 Lemma nodup_names_NoDup rs : nodup_names rs = true -> NoDup (map s_name rs).
@@ -29,18 +29,26 @@ Qed.
 Lemma entry_bounds nl off r : wf_rec nl r = true -> 0 <= off ->
   let e := entry nl off r in
   let n := zlen (render_rec nl r) in
-  0 <= r_len e <= n /\ off + 1 <= r_start e /\ r_start e + 1 <= off + n /\
+  0 <= r_len e <= n /\ off + 1 <= r_start e /\ r_start e <= off + n /\
   0 <= r_bases e <= n /\ 0 <= r_bytes e <= n /\
-  1 <= r_bases e <= r_bytes e /\
-  r_start e + r_len e / r_bases e * r_bytes e <= off + n + 2.
+  (r_bases e = 0 /\ r_len e = 0 \/
+   1 <= r_bases e <= r_bytes e /\
+   r_start e + r_len e / r_bases e * r_bytes e <= off + n + 2).
 Proof.
-  intros Hwf Hoff. destruct (wf_rec_parts _ _ Hwf) as (Hne & Hn & Hd & Hf & Hl & Hlb & Hbl).
+  intros Hwf Hoff. destruct (is_empty r) eqn:He.
+  { cbv zeta. unfold entry, render_rec. rewrite He. cbn [r_len r_start r_bases r_bytes].
+    rewrite !zlen_app'. unfold tlen.
+    pose proof (zlen_nonneg (blanks (s_blanks r))).
+    pose proof (zlen_nonneg (s_name r ++ s_desc r)).
+    pose proof (term_zlen_pos (s_crlf r)).
+    pose proof (zlen_nonneg (@nil Z)). rewrite zlen_cons. destruct nl; cbv iota; repeat split; lia. }
+  destruct (wf_rec_parts _ _ Hwf He) as (Hne & Hn & Hd & Hf & Hl & Hlb & Hbl).
   pose proof (full_widths _ _ Hf) as Hw.
   pose proof (zlen_concat_full _ _ Hw) as Hcf.
   pose proof (zlen_concat_term _ _ (s_crlf r) Hw) as Hct.
   pose proof (term_zlen_pos (s_crlf r)) as Ht.
-  cbv zeta. unfold entry. cbn [r_len r_start r_bases r_bytes].
-  unfold render_rec, render_body. rewrite !zlen_app'. rewrite zlen_concat_bases, Hcf, Hct.
+  cbv zeta. unfold entry. rewrite He. cbn [r_len r_start r_bases r_bytes].
+  unfold render_rec. rewrite He. unfold render_body. rewrite !zlen_app'. rewrite zlen_concat_bases, Hcf, Hct.
   unfold tlen.
   assert (Hh : 1 <= zlen (render_header r)).
   { unfold render_header. rewrite zlen_cons. pose proof (zlen_nonneg (s_name r ++ s_desc r ++ term (s_crlf r))). lia. }
@@ -52,7 +60,7 @@ Proof.
   destruct (s_full r) as [|l0 fl] eqn:Efull.
   - cbn [length Z.of_nat] in *.
     replace (0 * zlen (s_last r) + zlen (s_last r)) with (zlen (s_last r)) by lia.
-    rewrite Z_div_same_full by lia. rewrite Hsp. destruct nl; lia.
+    rewrite Z_div_same_full by lia. rewrite Hsp. destruct nl; repeat split; try lia; right; lia.
   - assert (1 <= Z.of_nat (length (l0 :: fl))) by (cbn [length]; lia).
     set (k := Z.of_nat (length (l0 :: fl))) in *.
     assert (0 <= zlen sp) by apply zlen_nonneg.
@@ -62,7 +70,7 @@ Proof.
     { destruct (Z.eq_dec (zlen (s_last r)) (zlen l0)) as [E|E].
       - right. split; [rewrite E; apply Z_div_same_full; lia|assumption].
       - left. split; [apply Z.div_small; lia|lia]. }
-    destruct Hq as [[-> Hlt]|[-> Heq]]; nia.
+    destruct Hq as [[-> Hlt]|[-> Heq]]; (repeat split; try nia; right; nia).
 Qed.
 
 Lemma entries_props rs : forall fin off,
@@ -73,8 +81,9 @@ Lemma entries_props rs : forall fin off,
                    r_start e <= off + zlen (render_recs fin rs) /\
                    0 <= r_bases e <= off + zlen (render_recs fin rs) /\
                    0 <= r_bytes e <= off + zlen (render_recs fin rs) /\
-                   1 <= r_bases e <= r_bytes e /\
-                   r_start e + r_len e / r_bases e * r_bytes e <= off + zlen (render_recs fin rs) + 2) (entries fin off rs).
+                   (r_bases e = 0 /\ r_len e = 0 \/
+                    1 <= r_bases e <= r_bytes e /\
+                    r_start e + r_len e / r_bases e * r_bytes e <= off + zlen (render_recs fin rs) + 2)) (entries fin off rs).
 Proof.
   induction rs as [|r t IH]; intros fin off Hwf Hoff.
   - split; [reflexivity|constructor].
@@ -98,31 +107,25 @@ Proof.
       eapply Forall_impl; [|exact Hall]. cbv beta. intros e He. lia.
 Qed.
 
-Lemma namech_plain c : namech c = true -> negb (c =? 34) = true -> plainch c = true.
+Lemma namech_plain c : namech c = true -> plainch c = true.
 Proof.
-  unfold namech, plainch. intros H Hq. bprop.
-  repeat (apply andb_true_iff; split); apply negb_true_iff, Z.eqb_neq; lia.
+  unfold namech, plainch. intros H. bprop.
+  apply andb_true_iff; split; apply negb_true_iff, Z.eqb_neq; lia.
 Qed.
-
-(** Names of a well-formed file without a double quote are plain. *)
-Definition no_quote (f : fasta) : bool :=
-  forallb (fun r => forallb (fun c => negb (c =? 34)) (s_name r)) (f_recs f).
 
 Lemma wf_recs_names fin rs : wf_recs fin rs = true ->
   forallb (fun r => forallb namech (s_name r)) rs = true.
 Proof.
   induction rs as [|r t IH]; [reflexivity|]. rewrite wf_recs_cons. intros H.
   apply andb_true_iff in H as [Hr Ht]. cbn [forallb]. rewrite IH by assumption.
-  destruct (wf_rec_parts _ _ Hr) as (_ & Hn & _). rewrite Hn. reflexivity.
+  destruct (wf_rec_head _ _ Hr) as (_ & Hn & _). rewrite Hn. reflexivity.
 Qed.
 
-Lemma forallb_and {A} (P Q R : A -> bool) l :
-  (forall x, P x = true -> Q x = true -> R x = true) ->
-  forallb P l = true -> forallb Q l = true -> forallb R l = true.
+Lemma geometry_ok_zero r :
+  r_len r = 0 -> r_bases r = 0 -> 0 <= r_start r -> 0 <= r_bytes r -> geometry_ok r = true.
 Proof.
-  intros H. induction l as [|x l IH]; [reflexivity|]. cbn [forallb]. intros HP HQ.
-  apply andb_true_iff in HP as [HP1 HP2]. apply andb_true_iff in HQ as [HQ1 HQ2].
-  rewrite (H x HP1 HQ1), IH by assumption. reflexivity.
+  intros HL HB HS HY. unfold geometry_ok. rewrite HL, HB.
+  destruct (Z.ltb_spec (r_start r) 0); [lia|]. destruct (Z.ltb_spec (r_bytes r) 0); [lia|]. reflexivity.
 Qed.
 
 Lemma geometry_ok_intro r :
@@ -144,10 +147,10 @@ Proof.
 Qed.
 
 Theorem tsv_roundtrip_index f :
-  wf f = true -> no_quote f = true -> 2 * zlen (render f) + 2 < 2 ^ 63 ->
+  wf f = true -> 2 * zlen (render f) + 2 < 2 ^ 63 ->
   readfrom (writeto (index_of f)) = Ok (index_of f).
 Proof.
-  intros Hwf Hq Hsize. pose proof Hwf as Hwf'. unfold wf in Hwf'. bprop.
+  intros Hwf Hsize. pose proof Hwf as Hwf'. unfold wf in Hwf'. bprop.
   pose proof (zlen_nonneg (blanks (f_lead f))) as Hl0.
   destruct (entries_props (f_recs f) (f_final_nl f) (zlen (blanks (f_lead f))) ltac:(assumption) Hl0) as [Hinc Hall].
   fold (index_of f) in Hinc, Hall.
@@ -160,11 +163,14 @@ Proof.
       unfold index_of in Hin. rewrite entries_names in Hin. apply in_map_iff in Hin as (r & Hr & Hin).
       rewrite <- Hr.
       pose proof (wf_recs_names _ _ ltac:(eassumption)) as Hnames.
-      rewrite forallb_forall in Hnames. unfold no_quote in Hq. rewrite forallb_forall in Hq.
-      exact (forallb_and _ _ _ _ namech_plain (Hnames r Hin) (Hq r Hin)). }
+      rewrite forallb_forall in Hnames.
+      exact (forallb_impl _ _ _ namech_plain (Hnames r Hin)). }
     apply Forall_forall. intros e He.
     rewrite Forall_forall in Hall, Hplain. specialize (Hall e He). specialize (Hplain e He).
     unfold good_rec, int64. split; [assumption|].
-    repeat (split; [lia|]). apply geometry_ok_intro; lia.
+    repeat (split; [lia|]).
+    destruct Hall as (Hs1 & Hl1 & Hs2 & Hb1 & Hy1 & [[HB0 HL0]|[HB1 Hroom]]).
+    + apply geometry_ok_zero; lia.
+    + apply geometry_ok_intro; lia.
   - rewrite Hrt. rewrite sort_sorted by assumption. reflexivity.
 Qed.
